@@ -48,6 +48,12 @@ func c02Gen(seed uint64, tier string) any {
 			src = adversarial(r)
 		case 1:
 			src = "^st" + Pick(r, []string{" 力量60敏捷70", "力量:50 hp+1d4", " &手枪=1d6+2", " 力量+1d("})
+		case 2:
+			// definitions whose value objects are written to afterwards; executed again from the same code
+			src = Pick(r, []string{"&cv.b = 1\n&cv = 11", "&cc = 1; &cc.me = 2; cc", "&cv = 5 + (this.n ?? 0); &cv.n = (cv.n ?? 0) + 1; cv", "func mk() { &loc = 7; &loc.k = 1; return &loc }; mk()",
+				"xs = [&(1+1)]; xs[0].w = (xs[0].w ?? 0) + 1; xs[0].w", "d = {'f': &(2)}; d.f.t = 3; d"})
+			sc.Cmds = append(sc.Cmds, Cmd{Kind: "parse", Src: src}, Cmd{Kind: "rerun"}, Cmd{Kind: "rerun"})
+			continue
 		}
 		switch r.Intn(10) {
 		case 0:
